@@ -70,7 +70,7 @@ def session_item(i, s, wd, mode, outline):
     known = set()
     for e in s["hist"]:
         f = e["file"]
-        steps.append({"op": "open" if e["ev"] == "Open" else "change", "file": f + ".td", "v": e["t"]["k"],
+        steps.append({"op": {"Open": "open", "Reopen": "reopen"}.get(e["ev"], "change"), "file": f + ".td", "v": e["t"]["k"],
                       "text": render_text(f, e["t"]), "t": e["t"], "f": f})
         known.add(f)
         if mode == "settled":
@@ -85,7 +85,10 @@ def session_item(i, s, wd, mode, outline):
             for g in sorted(known):
                 steps.append({"op": "request", "method": "textDocument/documentSymbol", "file": g + ".td", "f": g})
             steps.append({"op": "quiet"})
-    return {"id": i, "kind": "session", "dir": os.path.join(wd, "fs", "run%d" % i), "disk": disk, "steps": steps, "quiet_ms": 20000}
+    it = {"id": i, "kind": "session", "dir": os.path.join(wd, "fs", "run%d" % i), "disk": disk, "steps": steps, "quiet_ms": 20000}
+    if i % 2 == 1:
+        it["client"] = "full"
+    return it
 
 
 def rng_str(r):
@@ -123,7 +126,7 @@ def to_trace(run, s, item, rec):
     for f in FILES:
         t = s["disk"][f]
         ev.append({"ev": "Disk", "file": f, "t": with_marks(f, t)})
-    sent = [st for st in item["steps"] if st["op"] in ("open", "change")]
+    sent = [st for st in item["steps"] if st["op"] in ("open", "change", "reopen")]
     si = 0
     if rec.get("outcome") in ("Crash", "Hang", "Panic"):
         ev.append({"ev": "Crash"})
@@ -312,6 +315,8 @@ def msgs_session(i, msgs, wd, rot, schedule=None, hold=None, big=False):
                 steps.append({"op": "open", "file": "a.td", "v": k, "text": 'include "b.td"\nclass M_a_%d : M_b_0;\n' % k})
             steps.append({"op": "request", "method": method, "file": "a.td", "params": params})
     it = {"id": i, "kind": "session", "dir": os.path.join(wd, "fs", "run%d" % i), "disk": disk, "steps": steps, "quiet_ms": 20000}
+    if i % 2 == 0:
+        it["client"] = "full"           # every other run: a client that announces an editor's full capabilities (and answers server requests)
     if schedule:
         it["schedule"] = schedule
     if hold:
@@ -505,6 +510,13 @@ def build_binary():
     return os.path.join(td, "debug", "lsp")
 
 
+FULL_CLIENT = {"workspace": {"applyEdit": True, "configuration": True, "workspaceFolders": True, "inlayHint": {"refreshSupport": True},
+                             "semanticTokens": {"refreshSupport": True}, "codeLens": {"refreshSupport": True}, "diagnostics": {"refreshSupport": True}},
+               "textDocument": {"publishDiagnostics": {"relatedInformation": True, "versionSupport": True}, "inlayHint": {"dynamicRegistration": True},
+                                "hover": {"contentFormat": ["markdown", "plaintext"]}, "definition": {"linkSupport": True}},
+               "window": {"workDoneProgress": True, "showDocument": {"support": True}}, "general": {"positionEncodings": ["utf-16"]}}
+
+
 def stdio_burst(binary, d, nreq, rot, nnotif=1, timeout=25.0):
     """one process: initialize, didOpen, then nreq requests (and more didChange) written in ONE write; returns #answered"""
     import subprocess
@@ -520,6 +532,7 @@ def stdio_burst(binary, d, nreq, rot, nnotif=1, timeout=25.0):
     p = subprocess.Popen([binary], stdin=subprocess.PIPE, stdout=subprocess.PIPE, stderr=subprocess.DEVNULL)
     got = {}
     done = threading.Event()
+    wlock = threading.Lock()
 
     def reader():
         f = p.stdout
@@ -532,13 +545,19 @@ def stdio_burst(binary, d, nreq, rot, nnotif=1, timeout=25.0):
                 h += c
             n = int([l for l in h.decode().split("\r\n") if l.startswith("Content-Length")][0].split(":")[1])
             body = json.loads(f.read(n))
-            if "id" in body and "method" not in body:
+            if "id" in body and "method" in body:
+                # a request of the server to the client: answered at once, as an editor would
+                with wlock:
+                    p.stdin.write(frame({"jsonrpc": "2.0", "id": body["id"], "result": None}))
+                    p.stdin.flush()
+            elif "id" in body:
                 got[body["id"]] = True
                 if len(got) >= nreq + 1:
                     done.set()
     t = threading.Thread(target=reader, daemon=True)
     t.start()
-    p.stdin.write(frame({"jsonrpc": "2.0", "id": 0, "method": "initialize", "params": {"capabilities": {}}}))
+    caps = FULL_CLIENT if (nreq + nnotif) % 2 == 0 else {}
+    p.stdin.write(frame({"jsonrpc": "2.0", "id": 0, "method": "initialize", "params": {"capabilities": caps}}))
     p.stdin.flush()
     t0 = time.time()
     while 0 not in got and time.time() - t0 < 10:
@@ -554,8 +573,9 @@ def stdio_burst(binary, d, nreq, rot, nnotif=1, timeout=25.0):
         if nnotif > 1 and i % max(1, nreq // nnotif) == 0:
             buf += frame({"jsonrpc": "2.0", "method": "textDocument/didChange", "params": {"textDocument": {"uri": a_uri, "version": i + 2},
                           "contentChanges": [{"text": 'include "b.td"\nclass M_a_%d : M_b_0;\n' % (i + 2)}]}})
-    p.stdin.write(buf)
-    p.stdin.flush()
+    with wlock:
+        p.stdin.write(buf)
+        p.stdin.flush()
     done.wait(timeout)
     answered = len(got) - 1
     alive = p.poll() is None
